@@ -911,6 +911,13 @@ def immutable_treeseq(ctx, py, rule="PY-TS-IMMUTABLE"):
                     if isinstance(t, ast.Attribute) and isinstance(t.value, ast.Name) and t.value.id == "self" and t.attr != "_ll_tree_sequence":
                         if isinstance(x.value, ast.Constant):
                             continue
+                        v = x.value
+                        # immutable by construction: int(...), float(...), len(...), bool(...), str(...), bytes(...), tuple(...), frozenset(...)
+                        if isinstance(v, ast.Call) and isinstance(v.func, ast.Name) and v.func.id in (
+                                "int", "float", "len", "bool", "str", "bytes", "tuple", "frozenset", "complex"):
+                            continue
+                        if isinstance(v, (ast.Compare, ast.BoolOp)):
+                            continue
                         frozen = False
                         for y in ast.walk(fn):
                             if isinstance(y, ast.Assign) and isinstance(y.value, ast.Constant) and y.value.value is False:
